@@ -368,6 +368,37 @@ def check_iter(r) -> list[Fail]:
     sel = [a for k, a in enumerate(sorted(aps)) if (r.get("ap_subset", 255) >> k) & 1] or sorted(aps)
     subs = [build_fragment(dict(s, aps=s["aps"][:1]), ml.Molecule, f"s{k}_")[0] for k, s in enumerate(r["subs"][: len(sel)])]
     aps = sel[: len(subs)]
+    bad = r.get("bad_sub")
+    if bad is not None:
+        # one substituent of the combination is defective: its single attachment point carries TWO bonds (it still counts as one
+        # attachment point, so `molli combine` accepts the file) - join refuses it.  A combination that cannot be assembled yields
+        # no product: never a half-assembled molecule under the product's name
+        from molli.chem import Bond
+        bad %= len(subs)
+        sb = subs[bad]
+        apa = sb.attachment_points[0]
+        others = [a for a in sb.atoms if a is not apa and not any(apa in b and a in b for b in sb.bonds)]
+        if not others:
+            bad = None
+        else:
+            sb.append_bond(Bond(apa, others[0]))
+            try:
+                ml.Molecule.join(ml.Molecule(core), sb, sorted(aps)[0], sb.atoms.index(apa), optimize_rotation=True)
+                return []      # (a join that copes with such an attachment point is not what this case is about)
+            except Exception:
+                pass
+            try:
+                fn = _real_assemble()
+                call = fn(core, tuple(sorted(aps)), [tuple(subs)], hadd=False, obopt=None)
+                results = call[0](*call[1], **call[2]) if isinstance(call, tuple) else call
+            except Exception:
+                tally(units=0, nontrivial_keys=[])
+                return []
+            if results:
+                (pname, prod), = list(results.items())[:1]
+                return [Fail("combine:half-assembled-molecule-returned-as-the-product", f"substituent {bad} cannot be joined, yet {pname!r} is returned with {prod.n_atoms} atoms, {sum(1 for a in prod.atoms if a.is_attachment_point)} attachment point(s) left")]
+            tally(units=0, nontrivial_keys=[])
+            return []
     core_snapshot = chem.snapshot(core)
     core_aps = tuple(sorted(aps))            # indices of the selected attachment points in the core, ascending
     ap_labels = [core.atoms[i].label for i in core_aps]
@@ -422,11 +453,12 @@ def classify_iter(r):
     naps = len(r["core"]["aps"])
     nsel = sum(1 for k in range(naps) if (r.get("ap_subset", 255) >> k) & 1) or naps
     n = min(nsel, len(r["subs"]))
-    return n >= 2 and r["core"]["n"] >= 3, [f"n_joins={n}", "proper_subset_of_attachment_points" if nsel < naps else "all_attachment_points"]
+    return n >= 2 and r["core"]["n"] >= 3, [f"n_joins={n}", f"defective_substituent={'none' if r.get('bad_sub') is None else 'yes'}", "proper_subset_of_attachment_points" if nsel < naps else "all_attachment_points"]
 
 
 def strat_iter(tier):
-    return st.fixed_dictionaries({"core": _frag(10, (2, 4)), "subs": st.lists(_frag(6), min_size=2, max_size=4), "ap_subset": st.sampled_from([255, 255, 3, 5, 6, 9, 10, 12, 7, 14])})
+    return st.fixed_dictionaries({"core": _frag(10, (2, 4)), "subs": st.lists(_frag(6), min_size=2, max_size=4), "ap_subset": st.sampled_from([255, 255, 3, 5, 6, 9, 10, 12, 7, 14]),
+                                  "bad_sub": st.sampled_from([None, None, None, None, 0, 1, 2, 3])})
 
 
 LEGS = [
@@ -434,5 +466,5 @@ LEGS = [
         rule="constructed 3-D tree/ring fragments of 1-10 heavy atoms + attachment point, random poses, dist None|0.8-3.0, optimize_rotation on/off, charge/mult/name/bond overrides (charge 0 its own class), "
              "attachment vectors in general position / exactly parallel / exactly antiparallel / along z; non-trivial = both fragments have >=3 heavy atoms"),
     Leg("iter", check_iter, classify_iter, strategy=strat_iter, n={"quick": 300, "thorough": 5000}, shards={"quick": 16, "thorough": 32},
-        rule="cores with 2-4 attachment points, all or a proper subset of them selected, joined successively with substituents exactly as molli combine does (index ap_i - i, optimize_rotation=True): single-join oracle at every step, and the product of the real molli.scripts.combine._ml_assemble (imported with a placeholder openbabel module) must equal the stepwise product; non-trivial = >=2 joins on a core of >=3 atoms"),
+        rule="cores with 2-4 attachment points, all or a proper subset of them selected, joined successively with substituents exactly as molli combine does (index ap_i - i, optimize_rotation=True): single-join oracle at every step, and the product of the real molli.scripts.combine._ml_assemble (imported with a placeholder openbabel module) must equal the stepwise product; in a third of the cases one substituent is defective (attachment point with two bonds): no product may come back; non-trivial = >=2 joins on a core of >=3 atoms"),
 ]
